@@ -91,15 +91,15 @@ type deferredExport struct {
 
 type taskCtx struct {
 	deferred map[int]*deferredExport
-	w     *world
-	objs  map[int]*slotObj
-	reps  map[int]*slotRep
-	fst   faultStats
-	stats *RunStats // only touched when single-task or after join
-	nOK   int
-	nFail int
-	nExp  int
-	nExpE int
+	w        *world
+	objs     map[int]*slotObj
+	reps     map[int]*slotRep
+	fst      faultStats
+	stats    *RunStats // only touched when single-task or after join
+	nOK      int
+	nFail    int
+	nExp     int
+	nExpE    int
 }
 
 func newTaskCtx(w *world) *taskCtx {
@@ -146,7 +146,6 @@ func (c *taskCtx) operand(op *Op) (any, string, bool) {
 	}
 	return s.res, s.origin + "|result", true
 }
-
 
 // guard runs f and converts a panic into a canonical "PANIC:" result naming the
 // top library frame.
@@ -210,7 +209,6 @@ func renderDecode(s *slotObj) string {
 	}
 	return sb.String()
 }
-
 
 // renderExport reads what an export returned.
 func renderExport(rd io.Reader, err error) string {
